@@ -11,4 +11,7 @@ suffix=""; [ "$tag" != "main" ] && suffix="-$tag"
 which="${1:-base}"
 case "$which" in
  base) go build -tags verif -overlay .build/overlay-$tag-base.json -o .build/bin/verif$suffix ./cmd/verif ;;
+ seeds) python3 scripts/runtimepatch.py >/dev/null
+        go build -tags verif -overlay .build/overlay-$tag-seeds.json -o .build/bin/verif$suffix.seeds ./cmd/verif ;;
+ all) "$0" base && "$0" seeds ;;
 esac
